@@ -44,6 +44,20 @@ func main() {
 	}
 	c := &Config{Repo: *repo, Verif: *verif, Tier: *tier}
 	switch cmd {
+	case "anchorsigs":
+		// development aid: prints the signature of every by-name anchor (frozen in roles.go)
+		ic, err := loadInterp(c, false)
+		if err != nil {
+			fmt.Println(err)
+			os.Exit(2)
+		}
+		for _, n := range pos {
+			if fi := ic.F[n]; fi != nil && fi.Obj != nil {
+				fmt.Printf("\t%q: %q,\n", n, sigString(fi.Obj))
+			} else {
+				fmt.Printf("\t// %s not found\n", n)
+			}
+		}
 	case "list":
 		ids := []string{}
 		for id := range props {
